@@ -140,10 +140,14 @@ def exhaustive_cases(depth):
 
 
 def random_case(rng, domain=True):
-    """(instrs, nphys); domain: labels 0..n-1, neighbouring pairs; otherwise scattered labels and / or distant pairs"""
+    """(instrs, nphys); domain: labels 0..n-1, neighbouring pairs; otherwise scattered labels and / or distant pairs (on labels 0..n-1
+    with n >= 3 a distant pair is what Circuit.CNOT / ECR assert against)"""
     n = int(rng.integers(1, 5))
+    distant = (not domain) and rng.random() < 0.4
     if domain:
         labels = list(range(n)); nphys = int(rng.integers(n, n + 3))
+    elif distant:
+        n = int(rng.integers(3, 5)); labels = list(range(n)); nphys = n
     else:
         nphys = int(rng.integers(n, 9))
         labels = sorted(int(x) for x in rng.choice(nphys, n, replace=False)) if rng.random() < 0.7 else list(range(n))
@@ -167,6 +171,10 @@ def random_case(rng, domain=True):
     for q in labels:
         if not any(q in i[1] and i[0] != "delay" and len(i[1]) <= 2 for i in ins):
             ins.insert(int(rng.integers(0, len(ins) + 1)), (("sx", "x", "rz")[int(rng.integers(3))], [q], int(rng.integers(-9, 9))))
+    if distant:
+        a = int(rng.integers(0, n - 2)); b = int(rng.integers(a + 2, n))
+        if rng.random() < 0.5: a, b = b, a
+        ins.insert(int(rng.integers(0, len(ins) + 1)), (str(rng.choice(["cx", "ecr"])), [a, b], None))
     ins = [(nm, q, (e if nm in ("rz", "delay") else None)) for nm, q, e in ins]
     meas = [int(q) for q in rng.choice(labels, int(rng.integers(1, n + 1)), replace=False)]
     for k, q in enumerate(meas):
